@@ -259,6 +259,10 @@ def corpus():
         (["PSS:" + cps("foo"), "PSS:" + cps("!bar")], [["Foo-Baz", "foobar"], ["Foo-Baz"]]),
         # ties: equal scores must keep the input order
         (["PSS:" + cps("a")], [["a"], ["ba"], ["a"], ["ab"], ["ba"], ["a"]]),
+        # long lists with many ties in non-sorted order (sorting more than 20 elements takes a different
+        # code path in the standard library: an unstable sort shows only here)
+        (["PSS:" + cps("a")], [[["xa", "a", "ba", "ab", "x a", "aa"][(i * 7 + i // 5) % 6]] for i in range(64)]),
+        (["L0FSS0:" + cps("ab")], [[["xab", "ab", "a b", "axb", "b", "x/ab"][(i * 5 + i // 7) % 6]] for i in range(50)]),
         # K1 shape: a needle held as code points against ASCII haystacks (positive never matches, negated always)
         (["L0FSS0:" + cps("fo\u0308o") + "+1FSS0:" + cps("fo\u0308o")], [["foo"], ["f\u00f6o"]]),
         ([], [["a"], []]),
